@@ -76,7 +76,22 @@ class ErrGen:
             return [Asg("ff", fn), Core("print", [MCall(List([Int(1), Int(2), Int(3)]), "fold", [Int(0), Id("ff")])])]
         if c < 0.8:
             g = Fn([], Block([Yield(Int(1)), self.say(), self.as_stmt(f), Yield(Int(2))]), gen=True)
-            how = r.choice(["for", "to_tuple", "next"])
+            how = r.choice(["for", "to_tuple", "next", "zip2", "zip1", "chain2", "zip_each"])
+            if how in ("zip2", "zip1", "chain2", "zip_each"):
+                # the failing generator (or a failing functor) feeds an adaptor with two inputs, as its first or its second input
+                other = Tuple([Int(7), Int(8), Int(9)])
+                if how == "zip2":
+                    e = MCall(other, "zip", [App(Id("g"), [])])
+                elif how == "zip1":
+                    e = MCall(App(Id("g"), []), "zip", [other])
+                elif how == "chain2":
+                    e = MCall(Tuple([Int(7)]), "chain", [App(Id("g"), [])])
+                else:
+                    fn = Fn([Param("x")], Block([If([Cmp(["=="], [Id("x"), Int(2)])], [Block([self.as_stmt(f)])], Block([Id("x")]))]))
+                    e = MCall(other, "zip", [MCall(Tuple([Int(1), Int(2), Int(3)]), "each", [fn])])
+                if r.random() < 0.5:
+                    return [Asg("g", g), For(["y"], e, Block([Core("print", [Id("y")])]))]
+                return [Asg("g", g), Core("print", [MCall(e, r.choice(["to_tuple", "to_list", "count"]), [])])]
             if how == "for":
                 return [Asg("g", g), For(["y"], App(Id("g"), []), Block([Core("print", [Id("y")])]))]
             if how == "to_tuple":
